@@ -131,6 +131,38 @@ func scenario(seed uint64, idx int, tier string, root string, fixed string, enc 
 			subsets = append(subsets, m)
 		}
 	}
+	// structured evictions: everything except one module's outputs / one module's snapshots (n <= 64 files), and those
+	// minus the output module's own files — the patterns a cache eviction by directory or by age produces
+	if n <= 64 {
+		groups := map[string]uint64{}
+		var order []string
+		for i, f := range F {
+			g := filepath.Dir(f)
+			if _, ok := groups[g]; !ok {
+				order = append(order, g)
+			}
+			groups[g] |= 1 << uint(i)
+		}
+		full := ^uint64(0)
+		if n < 64 {
+			full = (uint64(1) << uint(n)) - 1
+		}
+		for _, g := range order {
+			subsets = append(subsets, full&^groups[g])
+		}
+		if len(order) > 2 && len(order) <= 8 { // every pair of groups evicted
+			for i := range order {
+				for j := i + 1; j < len(order); j++ {
+					subsets = append(subsets, full&^groups[order[i]]&^groups[order[j]])
+				}
+			}
+		} else if len(order) > 8 {
+			for k := 0; k < 12; k++ {
+				a, b := order[rng.Intn(len(order))], order[rng.Intn(len(order))]
+				subsets = append(subsets, full&^groups[a]&^groups[b])
+			}
+		}
+	}
 	for si, mask := range subsets {
 		d := filepath.Join(dir, fmt.Sprintf("s%d", si))
 		var chosen []string
